@@ -1408,11 +1408,24 @@ fn check_cstrings(ctx: &mut RunCtx, w: &mut World) -> Step<()> {
     let bytes = ctx.mila("serialize", || w.a.serialize())?;
     let big = w.m.big;
     let size = w.m.size();
+    // the pool appended to the data holds every distinct pending text once (padded to a cell):
+    // text whose cells were all removed must not linger
+    let mut distinct: Vec<&String> = w.m.cstrings.iter().map(|c| &c.1).collect();
+    distinct.sort();
+    distinct.dedup();
+    let pool_len: usize = distinct.iter().map(|s| bin_image::sjis_encode(s).map(|b| b.len()).unwrap_or(0) + 1).sum();
+    let pool_len = (pool_len + 3) / 4 * 4;
     let result: Result<Vec<(usize, String)>, String> = match &bytes {
         Err(e) => Err(format!("serialize failed: {}", e)),
         Ok(b) => match bin_image::parse_image(b, big) {
             Err(e) => Err(format!("image unreadable: {}", e)),
-            Ok(img) => img.cstring_entries(size, big, &|src| w.m.pointers.contains_key(&src) || w.m.text.contains_key(&src)),
+            Ok(img) => {
+                if img.data_size != size + pool_len {
+                    Err(format!("the image's data region is {} bytes: {} bytes of data + a {}-byte pool, but the pending c-strings need a {}-byte pool", img.data_size, size, img.data_size as i64 - size as i64, pool_len))
+                } else {
+                    img.cstring_entries(size, big, &|src| w.m.pointers.contains_key(&src) || w.m.text.contains_key(&src))
+                }
+            }
         },
     };
     let mut want: Vec<(usize, String)> = w.m.cstrings.clone();
